@@ -2,6 +2,8 @@ from sa.selftest.harness import M, T
 
 X = "sharepoint2text/parsing/extractors/"
 D = X + "data_types.py"
+MB = "sharepoint2text/parsing/extractors/mail/mbox_email_extractor.py"
+XL = "sharepoint2text/parsing/extractors/ms_modern/xlsx_extractor.py"
 MUTANTS = [
     M("pdf-enumerate-start-0", D, "        for page_number, page in enumerate(self.pages, start=1):\n            yield PdfUnit(", "        for page_number, page in enumerate(self.pages, start=0):\n            yield PdfUnit(", "C03-NUM"),
     M("xlsx-units-filtered", D, "        for sheet_index, sheet in enumerate(self.sheets, start=1):\n            yield XlsxUnit(", "        for sheet_index, sheet in enumerate([s for s in self.sheets if s.data], start=1):\n            yield XlsxUnit(", "C03-NUM"),
@@ -17,6 +19,8 @@ MUTANTS = [
     M("epub-count-only-kept-chapters", X + "epub_extractor.py", "                chapter_number += 1\n                chapter, image_counter, _ = _extract_chapter(", "                chapter, image_counter, _ = _extract_chapter(", "C03-NUM"),
     M("ppt-fallback-slide-one", X + "ms_legacy/ppt_extractor.py", "slide = PptSlideContent(slide_number=len(content.slides) + 1)", "slide = PptSlideContent(slide_number=1)", "C03-NUM"),
     M("rtf-empty-pages-dropped", X + "ms_legacy/rtf_extractor.py", "            # Keep empty pages too: the position in the list is the page number\n            self.pages.append(page_text)", "            if page_text:\n                self.pages.append(page_text)", "C03-FILT"),
+    M("mbox-skip-empty-subject", MB, "            m = parse_email_message(message)\n", "            m = parse_email_message(message)\n            if not m.subject:\n                continue\n", "C03-FILL"),
+    M("xlsx-visible-sheets-only", XL, "            metadata = _extract_metadata_from_workbook(wb)\n            sheet_names = list(wb.sheetnames)\n", "            metadata = _extract_metadata_from_workbook(wb)\n            sheet_names = [n for n in wb.sheetnames if wb[n].sheet_state == \"visible\"]\n", "C03-FILL"),
 ]
 MUTANTS.append(M("odp-second-title-in-no-unit", X + "open_office/odp_extractor.py", "                if not found_title and (\n                    \"Title\" in style_name or style_name == \"TitleText\"\n                ):\n                    slide.title = text\n                    found_title = True\n                elif", "                if \"Title\" in style_name or style_name == \"TitleText\":\n                    if not found_title:\n                        slide.title = text\n                        found_title = True\n                elif", "C03-COVER"))
 TWINS = [
@@ -34,5 +38,7 @@ SEEDED = [
     ("C03-3", "C03-JOIN"),
     ("C03-4", "C03-FILL"),
     ("C03-5", "C03-JOIN"),
+    ("C03-6", "C03-FILL"),
+    ("C03-7", "C03-FILL"),
 ]
 MUTANTS = list(MUTANTS) + [_P("seed-" + sid, _os.path.join(_SEEDS, sid, "patch.diff"), rule) for sid, rule in SEEDED if _os.path.exists(_os.path.join(_SEEDS, sid, "patch.diff"))]
